@@ -579,6 +579,12 @@ func c07Run(input string) string {
 	if seed%3 == 0 { // a proof that names neither a domain nor a challenge
 		ctx.Domain, ctx.Challenge = "", ""
 	}
+	if seed%5 == 1 { // ... a challenge without a domain
+		ctx.Domain = ""
+	}
+	if seed%5 == 2 && seed%3 != 0 { // ... a domain without a challenge
+		ctx.Challenge = ""
+	}
 	switch s := signSuite.(type) {
 	case *ed25519signature2018.Suite:
 		ctx.Suite = s
